@@ -180,6 +180,9 @@ def main(tier, replay=None):
         nontriv = len(d["sections"]) >= 2 or any(
             {"-", "+"} <= {k for k, _ in h["body"]} for s in d["sections"] for h in s["hunks"])
         chk.case((tuple(lines), cfg.key()), nontriv, {"cfg": cfg.as_dict(), "input": lines[:14], "n_lines": len(lines)})
+        if not cfg.color_only:
+            sd = vm.ask("delta_sides", cfg.tabs, cfg.B, ",".join(vlib.hexs(l) for l in lines))
+            chk.count("theorem_side_condition:" + sd)
         m = gdiff.render_items(gdiff.model_items(vm, lines, cfg), cfg)
         if m != rows:
             mism += 1
